@@ -94,6 +94,12 @@ fn escape_table() -> Vec<String> {
             }
         }
     }
+    // literals whose unescaped text reaches the 65535-byte limit, with an escape in front that shifts multi-byte text out of step
+    for esc in ["\\n", "\\\"", "\\t\\0\\\\", "\\q"] {
+        for (ch, w) in [("é", 2usize), ("世", 3), ("🦀", 4)] {
+            for pre in 0..w { v.push(format!(".stringz \"{esc}{}{}\"", "a".repeat(pre), ch.repeat(65_535 / w + 40))); }
+        }
+    }
     // numbers
     for n in 1..=40usize {
         let d = "9".repeat(n);
